@@ -596,3 +596,90 @@ func (e *Engine) allRepoFunctions() []*ssa.Function {
 	sort.Slice(out, func(i, j int) bool { return out[i].String() < out[j].String() })
 	return out
 }
+
+// static kind "atomic-only": list = "pkg.Type.Field"; the field is accessed through sync/atomic
+// functions only (its address is taken solely to be passed to them), so concurrent increments
+// and reads need no lock and no increment is lost.
+func init() {
+	staticKinds["atomic-only"] = func(eng *Engine, id string, s StaticSpec) ([]*StaticResult, []string) {
+		var out []*StaticResult
+		var errs []string
+		for _, item := range s.List {
+			parts := strings.Split(item, ".")
+			if len(parts) != 3 {
+				errs = append(errs, "atomic-only wants pkg.Type.Field: "+item)
+				continue
+			}
+			var bad []string
+			n := 0
+			for _, fn := range eng.allRepoFunctions() {
+				for _, b := range fn.Blocks {
+					for _, in := range b.Instrs {
+						fa, ok := in.(*ssa.FieldAddr)
+						if !ok {
+							if f, ok := in.(*ssa.Field); ok {
+								if named, _ := f.X.Type().(*types.Named); named != nil && named.Obj().Pkg() != nil && named.Obj().Pkg().Name() == parts[0] && named.Obj().Name() == parts[1] {
+									if st, _ := named.Underlying().(*types.Struct); st != nil && st.Field(f.Field).Name() == parts[2] {
+										bad = append(bad, fmt.Sprintf("%s reads the field from a copy of the struct (%s)", fnDisplayName(fn), shortPos(eng.fset.Position(in.Pos()).String())))
+									}
+								}
+							}
+							continue
+						}
+						pt, ok := fa.X.Type().Underlying().(*types.Pointer)
+						if !ok {
+							continue
+						}
+						named, _ := pt.Elem().(*types.Named)
+						if named == nil || named.Obj().Pkg() == nil || named.Obj().Pkg().Name() != parts[0] || named.Obj().Name() != parts[1] {
+							continue
+						}
+						st, _ := named.Underlying().(*types.Struct)
+						if st == nil || st.Field(fa.Field).Name() != parts[2] {
+							continue
+						}
+						if fa.Referrers() == nil {
+							continue
+						}
+						for _, r := range *fa.Referrers() {
+							switch u := r.(type) {
+							case *ssa.DebugRef:
+							case *ssa.Call:
+								callee := u.Common().StaticCallee()
+								if callee != nil && callee.Pkg != nil && callee.Pkg.Pkg.Path() == "sync/atomic" {
+									n++
+									continue
+								}
+								bad = append(bad, fmt.Sprintf("%s passes the field's address to %v (%s)", fnDisplayName(fn), u.Common().Value, shortPos(eng.fset.Position(u.Pos()).String())))
+							case *ssa.Store:
+								if u.Addr == ssa.Value(fa) {
+									if al, ok := fa.X.(*ssa.Alloc); ok && al.Heap {
+										continue // initialisation of an object still under construction
+									}
+									if _, ok := resolveNaive(fa.X).(*ssa.Alloc); ok {
+										continue
+									}
+									bad = append(bad, fmt.Sprintf("%s assigns the field without sync/atomic (%s)", fnDisplayName(fn), shortPos(eng.fset.Position(u.Pos()).String())))
+								}
+							case *ssa.UnOp:
+								bad = append(bad, fmt.Sprintf("%s reads the field without sync/atomic (%s)", fnDisplayName(fn), shortPos(eng.fset.Position(u.Pos()).String())))
+							default:
+								bad = append(bad, fmt.Sprintf("%s uses the field's address in %T (%s)", fnDisplayName(fn), r, shortPos(eng.fset.Position(r.Pos()).String())))
+							}
+						}
+					}
+				}
+			}
+			sort.Strings(bad)
+			r := &StaticResult{Name: fmt.Sprintf("atomic-only %s", item), Kind: "atomic-only",
+				Text: fmt.Sprintf("%s is accessed through sync/atomic only (%d call sites)", item, n), OK: len(bad) == 0 && n > 0}
+			if len(bad) > 0 {
+				r.Detail = strings.Join(bad, "; ")
+			} else if n == 0 {
+				r.Detail = "no atomic access found"
+			}
+			out = append(out, r)
+		}
+		return out, errs
+	}
+}
